@@ -29,6 +29,8 @@ SUBS_MENU = [
     [{'raise_on_done': True}, {}],
     [{'flavor': 'inherited'}, {}],
     [{}, {'flavor': 'mixin'}],
+    [{'flavor': 'falsy'}, {}],
+    [{}, {'flavor': 'falsy'}],
     [{'flavor': 'mixin'}, {'flavor': 'inherited', 'raise_on_done': True}, {}],
     [{'reenter': {'on_done': ['result_other_thread']}}, {}],
     [{}, {'only': ['on_done'], 'reenter': {'on_done': ['result_other_thread']}}],
